@@ -467,6 +467,7 @@ def _designer_method(name):
             run.event('designer.suggest', d.tag)
             n = run.fresh('nsugg', z3.IntSort())
             run.assume(n >= 0)
+            run.nsugg = n
             return SymList(n, run.fresh('sugg', z3.ArraySort(z3.IntSort(), pm.PyObj)), 'pyobj')
         if name == 'dump':
             run.event('designer.dump', d.tag)
